@@ -1163,8 +1163,128 @@ def exact_frames(op, fr, obs, is_client):
     return None
 
 
+# ---------------------------------------------------------------------------
+# C21  results do not depend on how bytes are split (metamorphic: re-deliver each run of consecutive deliveries in
+# one piece to a fresh copy of the same history and compare)
+# ---------------------------------------------------------------------------
+import re as _re
+
+
+def _rel_events(evs):
+    """event strings with se=/pu= indices made relative to the event's own position"""
+    out = []
+    for p, e in enumerate(evs):
+        out.append(_re.sub(r'(se|pu)=(\d+)', lambda m: '%s=+%d' % (m.group(1), int(m.group(2)) - p), e))
+    return out
+
+
+def _delivery_groups(ops):
+    """maximal runs of consecutive deliveries to the same connection from the same source that can be merged:
+    recv recv ... | xfer(n>=0) ... xfer(n=None).  -> list of (start, end_exclusive)"""
+    groups, i = [], 0
+    while i < len(ops):
+        o = ops[i]
+        if o['op'] == 'recv':
+            j = i
+            while j + 1 < len(ops) and ops[j + 1]['op'] == 'recv' and ops[j + 1]['c'] == o['c']:
+                j += 1
+            groups.append((i, j + 1))
+            i = j + 1
+        elif o['op'] == 'xfer':
+            j = i
+            while (ops[j].get('n') is not None and ops[j]['n'] >= 0 and j + 1 < len(ops) and ops[j + 1]['op'] == 'xfer'
+                   and ops[j + 1]['c'] == o['c'] and ops[j + 1]['to'] == o['to']):
+                j += 1
+            if ops[j].get('n') is None:
+                groups.append((i, j + 1))
+                i = j + 1
+            else:
+                groups.append((i, i + 1))
+                i += 1
+        else:
+            i += 1
+    return groups
+
+
+def oracle_C21(run):
+    from corr import replay
+    ops = [op for op, ol, ml, obs in run.log]
+    groups = [g for g in _delivery_groups(ops)]
+    if not any(b - a > 1 for a, b in groups):
+        return []
+    # the same history with every group delivered in one piece
+    merged, gmap, k = [], {}, 0
+    starts = dict((a, b) for a, b in groups)
+    i = 0
+    while i < len(ops):
+        if i in starts:
+            b = starts[i]
+            first = ops[i]
+            if first['op'] == 'recv':
+                m = {'op': 'recv', 'c': first['c'], 'data': b''.join(ops[t]['data'] for t in range(i, b))}
+            else:
+                m = {'op': 'xfer', 'c': first['c'], 'to': first['to'], 'n': ops[b - 1].get('n')}
+            gmap[len(merged)] = (i, b)
+            merged.append(m)
+            i = b
+        else:
+            merged.append(ops[i])
+            i += 1
+    r2 = replay(merged, None)
+    out = []
+    # data_to_send(amount) hands out a prefix of the buffer and keeps the rest
+    for i, (op, ol, ml, obs) in enumerate(run.log):
+        if op['op'] == 'data_to_send' and obs is not None and obs['res'].startswith('ok'):
+            t = obs['res'].split(' ')[1]
+            got = b'' if t in ('.', '-') else bytes.fromhex(t)
+            if got + obs['outbuf'] != obs['outbuf_before']:
+                out.append(fail('data-to-send-not-a-partition', i, amount=op.get('amount')))
+                return out
+    for mi, (mop, mol, _, mobs) in enumerate(r2.log):
+        if mi not in gmap:
+            continue
+        a, b = gmap[mi]
+        # chunked side: events accumulate until the first error
+        app, err, stop = b'', None, None
+        for t in range(a, b):
+            obs = run.log[t][3]
+            if obs is None:
+                continue
+            if obs.get('appended') is None:
+                app = None
+            elif app is not None:
+                app += obs['appended']
+            if not obs['res'].startswith('ok'):
+                err = obs['res']
+                stop = t
+                break
+        # compare
+        werr = None if mobs['res'].startswith('ok') else mobs['res']
+        if (err is None) != (werr is None) or (err is not None and err != werr):
+            out.append(fail('chunking-changes-error', stop if stop is not None else b - 1, chunked=err, whole=werr, group=[a, b]))
+            break
+        wapp = mobs.get('appended')
+        if app is not None and wapp is not None and app != wapp:
+            out.append(fail('chunking-changes-output', stop if stop is not None else b - 1, chunked=app.hex()[:200], whole=wapp.hex()[:200], group=[a, b]))
+            break
+        if err is None:
+            # events: absolute se=/pu= indices are per call; compare with indices relative to the event
+            ch = []
+            for t in range(a, b):
+                obs = run.log[t][3]
+                if obs is not None:
+                    ch += _rel_events(obs['events'])
+            wh = _rel_events(mobs['events'])
+            if ch != wh:
+                out.append(fail('chunking-changes-events', b - 1, chunked=ch[:6], whole=wh[:6], group=[a, b]))
+                break
+        else:
+            break      # after a connection error the two buffers legitimately differ: stop judging
+    return out
+
+
 ORACLES = {
     'C02': oracle_C02, 'C03': oracle_C03, 'C04': oracle_C04, 'C05': oracle_C05, 'C07': oracle_C07, 'C08': oracle_C08,
     'C09': oracle_C09, 'C10': oracle_C10, 'C12': oracle_C12, 'C13': oracle_C13, 'C17': oracle_C17, 'C18': oracle_C18,
-    'C19': oracle_C19, 'C26': oracle_C26, 'C29': oracle_C29,
+    'C19': oracle_C19, 'C21': oracle_C21, 'C26': oracle_C26, 'C29': oracle_C29,
 }
